@@ -150,6 +150,10 @@ impl Tr3 for Imp3 {
 pub fn bx(x: u32) -> std::pin::Pin<Box<dyn std::future::Future<Output = u32> + Send>> { Box::pin(async move { HERE rt::Yield(x % 3).await; rt::log("bx"); x * 2 }) }""",
                [(str(x), 'format!("{:?}", rt::block_on(M::bx(%du32)))' % x) for x in (0, 1, 2)], is_async=True, async_trait=True, eop=True,
                attr='name = "bx-poll", enter_on_poll = true', lit="bx-poll"))
+    # a hand-written function of the async-trait shape whose body does something before it pins the future
+    c.append(F("bs", """#[TRACE]
+pub fn bs(x: u32) -> std::pin::Pin<Box<dyn std::future::Future<Output = u32> + Send>> { rt::log(format!("bs-prepare {x}")); Box::pin(async move { HERE rt::Yield(x % 2).await; rt::log("bs"); x + 1 }) }""",
+               [(str(x), 'format!("{:?}", rt::block_on(M::bs(%du32)))' % x) for x in (0, 1)], is_async=True, async_trait=True))
     c.append(F("am", """pub trait Tr2 { fn am(&self, x: u32) -> impl std::future::Future<Output = u32>; }
 pub struct Imp2(pub u32);
 impl Tr2 for Imp2 {
